@@ -44,7 +44,7 @@ package jerr
 //@   requires[C01,C07] f != nil
 //@   ensures result.File == f && result.Index == i
 //@   ensures imp(i < len(f.content.data), result.Line >= 1 && result.Column >= 1)
-//@   ensures[C07,@line-of-index] result.Line == lineOf(f.content.data.arr, f.content.data.off, len(f.content.data), i)
+//@   ensures[C07,C08,@line-of-index] result.Line == lineOf(f.content.data.arr, f.content.data.off, len(f.content.data), i)
 //@       && result.Column == colOf(f.content.data.arr, f.content.data.off, len(f.content.data), i)
 
 // "an index inside that file": the C07 clause is i < len; i == len does not panic (C01) but is not inside the file.
@@ -59,7 +59,7 @@ package jerr
 //@   ensures result.Msg == msg && result.File == f && result.Index == i
 //@   ensures len(result.includeTrace) == 0 && result.wrapped == nil
 //@   ensures imp(i < len(f.content.data), result.Line >= 1 && result.Column >= 1)
-//@   ensures[C07,@line-of-index] result.Line == lineOf(f.content.data.arr, f.content.data.off, len(f.content.data), i)
+//@   ensures[C07,C08,@line-of-index] result.Line == lineOf(f.content.data.arr, f.content.data.off, len(f.content.data), i)
 //@       && result.Column == colOf(f.content.data.arr, f.content.data.off, len(f.content.data), i)
 
 //@ func (*JApiError).OccurredInFile(e, f, atByte)
@@ -69,7 +69,7 @@ package jerr
 //@   ensures len(e.includeTrace) == old(len(e.includeTrace)) + 1
 //@   ensures e.includeTrace.arr == old(e.includeTrace.arr) || fresh(e.includeTrace.arr)
 //@   ensures e.includeTrace[len(e.includeTrace)-1].path == f.name
-//@   ensures[C07,@trace-line] e.includeTrace[len(e.includeTrace)-1].atLine == lineOf(f.content.data.arr, f.content.data.off, len(f.content.data), atByte)
+//@   ensures[C07,C08,@trace-line] e.includeTrace[len(e.includeTrace)-1].atLine == lineOf(f.content.data.arr, f.content.data.off, len(f.content.data), atByte)
 
 // the message of an error with its include trace: a function of the error, writes nothing the caller can see (assumed)
 //@ func (*JApiError).Error(e)
